@@ -36,9 +36,9 @@ Fixpoint head_atom (f : formula) : option (string * list gterm) :=
   | FQ QForall _ g => head_atom g
   | _ => None
   end.
-Definition atom_pred (a : string * list gterm) : pred := mkpred (fst a) (List.length (snd a)).
+Definition head_atom_pred (a : string * list gterm) : pred := mkpred (fst a) (List.length (snd a)).
 
-Lemma head_predicate_atom f : head_predicate f = option_map atom_pred (head_atom f).
+Lemma head_predicate_atom f : head_predicate f = option_map head_atom_pred (head_atom f).
 Proof.
   induction f as [a|g IH|c l IHl r IHr|q vs g IH]; cbn; try reflexivity.
   - destruct c; try reflexivity. destruct l as [[| |p ts|]| | |]; reflexivity.
